@@ -48,8 +48,44 @@ func (n nextItem) String() string {
 }
 
 // readAllItems drives WarcFileReader.Next until it returns an error.
+// chunkSrc delivers at most `n` bytes per Read and cannot seek: what a pipe or a socket does. The reader's buffer is then
+// refilled many times inside one record (and inside junk between records).
+type chunkSrc struct {
+	data []byte
+	pos  int
+	n    int
+}
+
+func (c *chunkSrc) Read(p []byte) (int, error) {
+	if c.pos >= len(c.data) {
+		return 0, io.EOF
+	}
+	k := c.n
+	if k > len(p) {
+		k = len(p)
+	}
+	if k > len(c.data)-c.pos {
+		k = len(c.data) - c.pos
+	}
+	copy(p, c.data[c.pos:c.pos+k])
+	c.pos += k
+	return k, nil
+}
+
+// srcFor picks the source behaviour from the input itself (so that a case replays exactly): whole-buffer reads for inputs
+// of even length, 64-byte (or 7-byte) reads for inputs of odd length
+func srcFor(data []byte) io.Reader {
+	switch len(data) % 4 {
+	case 1:
+		return &chunkSrc{data: data, n: 64}
+	case 3:
+		return &chunkSrc{data: data, n: 7}
+	}
+	return bytes.NewReader(data)
+}
+
 func readAllItems(o ropts, data []byte) []nextItem {
-	rd, err := gowarc.NewWarcFileReaderFromStream(bytes.NewReader(data), 0, o.options()...)
+	rd, err := gowarc.NewWarcFileReaderFromStream(srcFor(data), 0, o.options()...)
 	if err != nil {
 		return []nextItem{{err: "open"}}
 	}
